@@ -18,6 +18,9 @@ CONSTS = {
     "core::num::<impl u8>::MAX": 255,
     "core::num::<impl i32>::MAX": 2**31 - 1,
     "core::num::<impl i32>::MIN": -2**31,
+    "core::num::<impl i64>::MIN": -2**63,
+    "core::num::<impl u32>::MIN": 0,
+    "core::num::<impl usize>::MIN": 0,
 }
 
 
@@ -400,6 +403,18 @@ def _rel(name, f):
             return Term(name, x, y)
         if isinstance(x, bool):
             x, y = int(x), int(y)
+        if isinstance(x, Adt) and x.path in m.facts.adts:
+            for imp in m.facts.impls_of(trait="std::cmp::PartialOrd", self_adt=x.path):
+                for it in imp["items"]:
+                    if it["name"] == "partial_cmp" and it["path"] in m.facts.bodies:
+                        r = m.call_path(it["path"], [x, y])
+                        if isinstance(r, Term):
+                            return Term(name, x, y)
+                        if r.variant == "None":
+                            return False
+                        o = {"Less": -1, "Equal": 0, "Greater": 1}[r.fields["0"].variant]
+                        return f(o, 0)
+            raise Unsupported("no PartialOrd impl found for %s" % x.path)
         if not isinstance(x, (int, str, tuple)):
             return NOT_HANDLED
         return f(x, y)
@@ -536,13 +551,12 @@ for _ty in INT_RANGES:
 
 # ---- Vec / slices ------------------------------------------------------------
 
-@reg("std::vec::Vec::<T>::new", "std::collections::VecDeque::<T>::new")
+@reg("std::vec::Vec::<T>::new", "std::collections::VecDeque::<T>::new", "std::vec::Vec::<T>::with_capacity")
 def _vec_new(m, a, c):
-    return PyVec()
-
-
-@reg("std::vec::Vec::<T>::with_capacity")
-def _vec_with_cap(m, a, c):
+    if m.vec_seed is not None and m.cur_call_ty is not None:
+        seed = m.vec_seed(m.facts.ty(m.cur_call_ty))
+        if seed is not None:
+            return PyVec(seed)
     return PyVec()
 
 
@@ -579,6 +593,77 @@ def _vec_is_empty(m, a, c):
     if isinstance(v, Term):
         return Term("is_empty", v)
     return len(items_of(v)) == 0
+
+
+@reg("std::vec::Vec::<T, A>::extend", "<std::vec::Vec<T, A> as std::iter::Extend<T>>::extend")
+def _vec_extend(m, a, c):
+    v = deref(a[0])
+    v.items.extend(items_of(a[1]))
+    return ()
+
+
+@reg("std::vec::Vec::<T, A>::drain")
+def _vec_drain(m, a, c):
+    v = deref(a[0])
+    r = deref(a[1])
+    n = len(v.items)
+    if not isinstance(r, Adt):
+        raise Unsupported("drain range %r" % (r,))
+    lo = r.fields.get("start", 0)
+    hi = r.fields.get("end", n)
+    if is_sym(lo) or is_sym(hi):
+        raise Unsupported("drain with symbolic range")
+    if r.path.endswith("RangeInclusive"):
+        hi += 1
+    if lo > hi or hi > n:
+        raise Panic("drain range out of bounds")
+    out = v.items[lo:hi]
+    del v.items[lo:hi]
+    return PyIter(out)
+
+
+@reg("std::vec::Vec::<T, A>::insert")
+def _vec_insert(m, a, c):
+    v = deref(a[0])
+    v.items.insert(a[1], a[2])
+    return ()
+
+
+@reg("std::vec::Vec::<T, A>::truncate")
+def _vec_truncate(m, a, c):
+    v = deref(a[0])
+    del v.items[a[1]:]
+    return ()
+
+
+@reg("std::vec::Vec::<T, A>::reverse", "core::slice::<impl [T]>::reverse")
+def _vec_reverse(m, a, c):
+    v = deref(a[0])
+    v.items.reverse()
+    return ()
+
+
+@reg("std::vec::from_elem")
+def _from_elem(m, a, c):
+    n = a[1]
+    if is_sym(n):
+        return Term("repeat", a[0], n)
+    return PyVec([dcopy(a[0]) for _ in range(n)])
+
+
+@reg("std::slice::<impl [T]>::into_vec", "std::boxed::box_assume_init_into_vec_unsafe")
+def _into_vec(m, a, c):
+    return deref(a[0])
+
+
+@reg("alloc::intrinsics::write_box_via_move")
+def _write_box(m, a, c):
+    return a[1]
+
+
+@reg("std::boxed::Box::<T>::new_uninit")
+def _new_uninit(m, a, c):
+    return ()
 
 
 @reg("core::slice::<impl [T]>::last")
@@ -759,6 +844,18 @@ def _iter_adapt(name):
             for x in xs[1:]:
                 best = _min(m, [best, x], c)
             return some(best)
+        if name in ("max_by_key", "min_by_key"):
+            if not xs:
+                return NONE
+            best, bk = None, None
+            for x in xs:
+                kx = m.call_value(a[1], [x])
+                if is_sym(kx):
+                    raise Unsupported("%s with symbolic key" % name)
+                # Rust: max_by_key returns the last maximum, min_by_key the first minimum
+                if bk is None or (name == "max_by_key" and kx >= bk) or (name == "min_by_key" and kx < bk):
+                    best, bk = x, kx
+            return some(best)
         if name == "last":
             return some(xs[-1]) if xs else NONE
         if name == "unzip":
@@ -785,7 +882,7 @@ def _iter_adapt(name):
 
 for _nm in ["enumerate", "rev", "map", "filter", "filter_map", "cloned", "copied", "chain", "zip",
             "skip", "take", "collect", "count", "sum", "all", "any", "fold", "for_each", "max", "min",
-            "last", "unzip", "position", "find", "by_ref", "peekable", "fuse"]:
+            "last", "unzip", "position", "find", "by_ref", "peekable", "fuse", "max_by_key", "min_by_key"]:
     TRAIT_TABLE[("std::iter::Iterator", _nm)] = _iter_adapt(_nm)
     SEMANTIC_FIRST.add(("std::iter::Iterator", _nm))
 TRAIT_TABLE[("std::iter::DoubleEndedIterator", "rev")] = _iter_adapt("rev")
@@ -847,3 +944,81 @@ for _n in ["std::fmt::Arguments::<'a>::new", "core::fmt::rt::Argument::<'_>::new
            "core::fmt::rt::Argument::<'_>::new_debug", "std::fmt::Arguments::<'a>::from_str",
            "std::fmt::Arguments::<'a>::from_str_nonconst", "std::fmt::format"]:
     TABLE[_n] = lambda m, a, c: Term("fmt")
+
+
+@reg("bitcoin::VarInt::size")
+def _varint_size(m, a, c):
+    v = deref(a[0])
+    n = v.fields["0"] if isinstance(v, Adt) else v
+    if is_sym(n):
+        return Term("varint_len", n)
+    return 1 if n < 0xfd else (3 if n <= 0xffff else (5 if n <= 0xffffffff else 9))
+
+
+def _sort_key(v):
+    if isinstance(v, bool):
+        return int(v)
+    if isinstance(v, tuple):
+        return tuple(_sort_key(x) for x in v)
+    if isinstance(v, Adt) and v.path == OPTION:
+        return (0,) if v.variant == "None" else (1, _sort_key(v.fields["0"]))
+    if is_sym(v):
+        raise Unsupported("sort with symbolic key")
+    return v
+
+
+@reg("std::slice::<impl [T]>::sort_by_key", "std::slice::<impl [T]>::sort_by_cached_key",
+     "core::slice::<impl [T]>::sort_unstable_by_key")
+def _sort_by_key(m, a, c):
+    v = deref(a[0])
+    keyed = [(_sort_key(m.call_value(a[1], [x])), i, x) for i, x in enumerate(v.items)]
+    keyed.sort(key=lambda t: (t[0], t[1]))
+    v.items[:] = [x for _, _, x in keyed]
+    return ()
+
+
+@reg("std::slice::<impl [T]>::sort", "core::slice::<impl [T]>::sort_unstable")
+def _sort(m, a, c):
+    v = deref(a[0])
+    if any(isinstance(x, Adt) and x.path in m.facts.adts for x in v.items) or any(is_sym(x) for x in v.items):
+        # order of opaque / user-ordered items is not modelled: keep a marker
+        v.items[:] = [Term("sorted", PyVec(list(v.items)), i) for i in range(len(v.items))]
+        return ()
+    v.items.sort(key=_sort_key)
+    return ()
+
+
+@reg("std::mem::swap")
+def _swap(m, a, c):
+    x, y = a[0], a[1]
+    if isinstance(x, MutRef) and isinstance(y, MutRef):
+        vx, vy = x.get(), y.get()
+        x.set(vy)
+        y.set(vx)
+        return ()
+    x, y = deref(x), deref(y)
+    if isinstance(x, Adt) and isinstance(y, Adt):
+        x.path, y.path = y.path, x.path
+        x.variant, y.variant = y.variant, x.variant
+        x.fields, y.fields = y.fields, x.fields
+        return ()
+    if isinstance(x, PyVec) and isinstance(y, PyVec):
+        x.items, y.items = y.items, x.items
+        return ()
+    raise Unsupported("mem::swap of %r, %r" % (x, y))
+
+
+@reg("std::mem::replace")
+def _replace(m, a, c):
+    x = a[0]
+    if isinstance(x, MutRef):
+        old = x.get()
+        x.set(a[1])
+        return old
+    x = deref(x)
+    new = deref(a[1])
+    if isinstance(x, Adt) and isinstance(new, Adt):
+        old = Adt(x.path, x.variant, x.fields)
+        x.path, x.variant, x.fields = new.path, new.variant, new.fields
+        return old
+    raise Unsupported("mem::replace of %r" % (x,))
